@@ -255,7 +255,7 @@ def _bad(n):
 
 
 SPECIAL_NAMES = ("x'", "y''", '_a1', 'a.b', 'c.d.e', 'item', 'TRUEx', 'Falsey', 'A', 'E', 'S',
-                 '_', 'iteite', 'trueish')
+                 '_', 'iteite', 'trueish', 'tRUE', 'FALSe', 'Ite', 'ITE', 'true_', 'False1')
 
 
 def task_names(t):
@@ -264,19 +264,20 @@ def task_names(t):
     rep = run.Report()
     rec = sweep.Rec(rep)
     names = SPECIAL_NAMES
-    U = Universe(names)
     order = {n: i for i, n in enumerate(names)}
     bdd = S.new_autoref(order) if which == 'autoref' else S.new_bdd(order)
     raw = O.raw(bdd)
-    ev = Evaluator(U)
     forms = []
     pairs = list(itertools.permutations(names, 2))
     for a, b_ in pairs[::3] + pairs[1::7]:
-        forms += [f'{a} /\\ {b_}', f'~ {a} => {b_}', f'\\E {a}: {a} # {b_}',
-                  f'\\S {b_} / {a}: {a}', f'ite({a}, {b_}, ~{a})', f'{a}<->{b_}']
-    for s in forms:
+        for s_ in (f'{a} /\\ {b_}', f'~ {a} => {b_}', f'\\E {a}: {a} # {b_}',
+                   f'\\S {b_} / {a}: {a}', f'ite({a}, {b_}, ~{a})', f'{a}<->{b_}'):
+            forms.append((s_, (a, b_)))
+    for s, ab in forms:
         if focus is not None and s != focus:
             continue
+        U = Universe(ab)        # the formula mentions only these two names
+        ev = Evaluator(U)
         case = dict(task=t[:-1] + (s,), formula=s, manager=which)
         try:
             want = ev(s)
@@ -293,6 +294,7 @@ def task_names(t):
             rec('names:%s:exception:%s' % (kind, type(e).__name__),
                 'add_expr rejected a formula whose identifiers are of the documented form: %s'
                 % (str(e)[:100],), case)
+    forms = [f_ for f_, _ in forms]
     rep.sample(dict(family='identifiers', formula=forms[7], manager=which))
     return rep
 
